@@ -255,4 +255,190 @@ theorem multiline_no_bypass (kws : List Str) (src : Option String) (a b ws k res
     rw [hdrop]
     exact takeWhile_word k rest hkb hrest
 
+/-! ## which value the backend sees: annotations merging into one backend -/
+
+/-- several annotations registered on one backend: the filter runs on, and only on, the value
+that is emitted (the first registered one) — a later, different annotation is neither
+checked nor emitted, so merging cannot smuggle a snippet past the check -/
+theorem merge_first_wins (kws : List Str) (l : String) (v : Str) (rest : List (String × Str)) (glob : Str) :
+    run kws ((l, v) :: rest) glob = customConfig kws ⟨some l, v⟩ := rfl
+
+/-- the emitted lines do not depend on where the value came from (the source only feeds the log) -/
+theorem lines_source_irrelevant (kws : List Str) (s₁ s₂ : Option String) (v : Str) :
+    (customConfig kws ⟨s₁, v⟩).lines = (customConfig kws ⟨s₂, v⟩).lines := by
+  by_cases h : Hit kws (lineToSlice v)
+  · rcases h with h | h
+    · rw [star_blocks kws _ h, star_blocks kws _ h]
+    · rw [blocked kws ⟨s₁, v⟩ h, blocked kws ⟨s₂, v⟩ h]
+  · rw [untouched kws ⟨s₁, v⟩ h, untouched kws ⟨s₂, v⟩ h]
+
+/-! ## the property, as the oracle states it, on the model's output -/
+
+theorem any_dirty_iff (kws lines : List Str) :
+    lines.any (dirtyLine kws) = true ↔ ∃ l ∈ lines, ∃ k ∈ kws, k ≠ [] ∧ firstToken l = k := by
+  simp only [List.any_eq_true, dirtyLine, disabled, Bool.and_eq_true, decide_eq_true_eq,
+    List.contains_iff_mem, ← firstToken_spec, specToken]
+  constructor
+  · rintro ⟨l, hl, hne, hm⟩
+    exact ⟨l, hl, _, hm, hne, rfl⟩
+  · rintro ⟨l, hl, k, hk, hne, rfl⟩
+    exact ⟨l, hl, hne, hk⟩
+
+theorem star_disabled_iff (kws : List Str) : disabled kws star = true ↔ star ∈ kws := by
+  have hs : star ≠ [] := by decide
+  simp [disabled, hs]
+
+theorem hit_iff (kws lines : List Str) :
+    (disabled kws star || lines.any (dirtyLine kws)) = true ↔ Hit kws lines := by
+  rw [Bool.or_eq_true, star_disabled_iff, any_dirty_iff]; rfl
+
+/-- **safety, all sources**: no emitted line starts with a disabled keyword, and nothing is
+emitted when `*` is disabled.  (For every keyword list, annotation list, global value.) -/
+theorem emitted_is_clean (kws : List Str) (anns : List (String × Str)) (glob : Str) :
+    (star ∈ kws → (run kws anns glob).lines = []) ∧
+    ∀ l ∈ (run kws anns glob).lines, ∀ k ∈ kws, k ≠ [] → firstToken l ≠ k := by
+  unfold run
+  refine ⟨star_blocks kws _, ?_⟩
+  intro l hl k hk hne ht
+  by_cases h : Hit kws (lineToSlice (mapperGet anns glob).value)
+  · rcases h with h | h
+    · rw [star_blocks kws _ h] at hl; simp at hl
+    · rw [blocked kws _ h] at hl; simp at hl
+  · rw [untouched kws _ h] at hl
+    exact h (Or.inr ⟨l, hl, k, hk, hne, ht⟩)
+
+/-- **property_annotation_partial**: whenever the backend carries at least one annotation
+value for `config-backend` (Service, Ingress, IngressClass parameters — any number of them,
+any texts, any keyword list) the model's output satisfies every clause of the oracle. -/
+theorem property_annotation_partial (kws : List Str) (anns : List (String × Str)) (glob : Str)
+    (h : anns ≠ []) : oracle kws anns glob (run kws anns glob).lines = none := by
+  cases anns with
+  | nil => exact absurd rfl h
+  | cons a rest =>
+    obtain ⟨lab, v⟩ := a
+    rw [merge_first_wins]
+    simp only [oracle, mapperGet]
+    by_cases hh : Hit kws (lineToSlice v)
+    · have hout : (customConfig kws ⟨some lab, v⟩).lines = [] := by
+        rcases hh with h | h
+        · exact star_blocks kws _ h
+        · exact blocked kws ⟨some lab, v⟩ h
+      have hb := (hit_iff kws (lineToSlice v)).2 hh
+      simp [hout, hb]
+    · have hout := untouched kws ⟨some lab, v⟩ hh
+      simp only at hout
+      have hb : (disabled kws star || (lineToSlice v).any (dirtyLine kws)) = false := by
+        cases hx : (disabled kws star || (lineToSlice v).any (dirtyLine kws))
+        · rfl
+        · exact absurd ((hit_iff _ _).1 hx) hh
+      have h1 : disabled kws star = false := by
+        cases hx : disabled kws star
+        · rfl
+        · rw [hx] at hb; simp at hb
+      have h2 : (lineToSlice v).any (dirtyLine kws) = false := by
+        cases hx : (lineToSlice v).any (dirtyLine kws)
+        · rfl
+        · rw [hx] at hb; simp at hb
+      simp [hout, h1, h2]
+
+/-- without any annotation the global value is selected; the only clause the model can
+violate is the one that exempts global snippets from the filter -/
+theorem property_global_partial (kws : List Str) (glob : Str) :
+    oracle kws [] glob (run kws [] glob).lines = none ∨
+    oracle kws [] glob (run kws [] glob).lines = some "global-source-snippet-filtered" := by
+  simp only [oracle, mapperGet, run]
+  by_cases hh : Hit kws (lineToSlice glob)
+  · have hout : (customConfig kws ⟨none, glob⟩).lines = [] := by
+      rcases hh with h | h
+      · exact star_blocks kws _ h
+      · exact blocked kws ⟨none, glob⟩ h
+    rw [hout]
+    by_cases he : ([] : List Str) = lineToSlice glob
+    · left; simp [he]
+    · right; simp [he]
+  · have hout := untouched kws ⟨none, glob⟩ hh
+    simp only at hout
+    left; simp [hout]
+
+/-
+**global_unaffected** (C19: "snippets from the global ConfigMap are unaffected"), at full strength:
+
+    theorem global_unaffected (kws : List Str) (glob : Str) :
+        (run kws [] glob).lines = lineToSlice glob
+
+and the whole property on the model:
+
+    theorem property (kws : List Str) (anns : List (String × Str)) (glob : Str) :
+        oracle kws anns glob (run kws anns glob).lines = none
+
+Both are FALSE for the code as it is (`config.Source == nil` only changes the log text; the
+keyword loop runs all the same).  Witness: keyword list `k`, global `config-backend: "k"`.
+-/
+theorem global_unaffected_fails : ¬ ∀ (kws : List Str) (glob : Str), (run kws [] glob).lines = lineToSlice glob := by
+  intro h
+  exact absurd (h [[107]] [107]) (by decide)
+
+theorem property_fails : ¬ ∀ (kws : List Str) (anns : List (String × Str)) (glob : Str),
+    oracle kws anns glob (run kws anns glob).lines = none := by
+  intro h
+  exact absurd (h [[107]] [] [107]) (by decide)
+
+/-- the witness and its oracle signature; the `*` variant; the log blames "global config" (`none`) -/
+theorem global_filtered_witness :
+    run [[107]] [] [107] = .skipKw none [107] ∧
+    oracle [[107]] [] [107] (run [[107]] [] [107]).lines = some "global-source-snippet-filtered" ∧
+    run [star] [] [120] = .skipStar none ∧
+    oracle [star] [] [120] (run [star] [] [120]).lines = some "global-source-snippet-filtered" := by decide
+
+/-- **global_unaffected_partial**: the global snippet is emitted unchanged exactly when the
+same text would have passed as an annotation; in particular when no keyword hits it. -/
+theorem global_unaffected_partial (kws : List Str) (glob : Str) :
+    (¬ Hit kws (lineToSlice glob) → (run kws [] glob).lines = lineToSlice glob) ∧
+    (∀ lab, (run kws [] glob).lines = (run kws [(lab, glob)] []).lines) := by
+  constructor
+  · exact untouched kws ⟨none, glob⟩
+  · intro lab; exact lines_source_irrelevant kws none (some lab) glob
+
+/-! ## non-vacuity -/
+
+-- annotation " \tk 1\nx" with keyword k: dropped as a whole, the log names the annotation
+example : run [[107]] [("s", [32, 9, 107, 32, 49, 10, 120])] [120] = .skipKw (some "s") [107] := by decide
+-- keyword as a prefix of another word: "kx 1" passes with keyword k
+example : (run [[107]] [("s", [107, 120, 32, 49])] []).lines = [[107, 120, 32, 49]] := by decide
+-- mixed case is a different token: "K" passes with keyword k
+example : (run [[107]] [("i1", [75])] []).lines = [[75]] := by decide
+-- the Service annotation wins over a dirty Ingress annotation (which is then not emitted either)
+example : (run [[107]] [("s", [120]), ("i1", [107])] []).lines = [[120]] := by decide
+-- the hypotheses of `blocked`, `untouched`, `multiline_no_bypass` are satisfiable
+example : ∃ l ∈ lineToSlice [120, 10, 9, 107], ∃ k ∈ [[107]], k ≠ [] ∧ firstToken l = k := by decide
+example : ¬ Hit [[107]] (lineToSlice [120, 10, 107, 120]) := by
+  intro h; rcases h with h | ⟨l, hl, k, hk, hne, ht⟩
+  · revert h; decide
+  · simp at hk; subst hk; revert hl ht; simp [lineToSlice, trimRightNL, splitNL, nl]; decide
+example : oracle [[107]] [("s", [107])] [] [[107]] = some "annotation-keyword-leaked" := by decide
+example : oracle [star] [("s", [120])] [] [[120]] = some "star-leaked" := by decide
+example : oracle [[107]] [("s", [120])] [] [] = some "clean-snippet-dropped" := by decide
+example : oracle [[107]] [("s", [120, 10, 107])] [] [[120]] = some "dirty-snippet-not-dropped-as-a-whole" := by decide
+
+/-! ## constants regenerated from the Go source -/
+
+/-- the `asciiSpace` table, the loop conditions of `firstToken`, the shape of
+`buildBackendCustomConfig` and of `LineToSlice` are the ones the model was written from -/
+theorem facts_c19 :
+    Facts.c19AsciiSpaceLen = 256 ∧
+    Facts.c19AsciiSpaceKeys.zip Facts.c19AsciiSpaceVals = spaceTable ∧
+    Facts.c19AsciiSpaceKeys.length = Facts.c19AsciiSpaceVals.length ∧
+    Facts.c19FirstTokenConds =
+      ["len(s) > start", "asciiSpace[s[start]] == 0", "len(s) > end", "asciiSpace[s[end]] == 1"] ∧
+    Facts.c19FirstTokenReturns = ["s[start:end]"] ∧
+    Facts.c19CustomConfigConds =
+      ["len(lines) == 0", "config.Source != nil", "keyword == \"\"", "keyword == \"*\"", "firstToken(line) == keyword"] ∧
+    Facts.c19CustomConfigRanges = ["c.options.DisableKeywords", "lines"] ∧
+    Facts.c19CustomConfigAssigns = ["d.backend.CustomConfig = lines"] ∧
+    Facts.c19CustomConfigReturns = 3 ∧
+    Facts.c19CustomConfigInput = ["ingtypes.BackConfigBackend", "config.Value"] ∧
+    Facts.c19LineToSliceConds = ["s == \"\""] ∧
+    Facts.c19LineToSliceReturns = ["nil", "strings.Split(strings.TrimRight(s, \"\\n\"), \"\\n\")"] := by
+  decide
+
 end HapVerif.C19
